@@ -116,6 +116,7 @@ type CallPlan struct {
 	Deadline     time.Duration // 0: none
 	CancelTask   bool          // a canceller task cancels at a scheduler-chosen step
 	CancelBefore bool          // the context is cancelled before the first operation
+	CancelDelay  time.Duration // calibration world only: the canceller waits this long (fake time) first
 	YieldOn      [simhttp.NumPoints]bool
 	SlowOn       [simhttp.NumPoints]bool
 
